@@ -13,7 +13,63 @@ FW_RULE = ("cases = random validated machine sets x call histories drawn from on
            "observed tape; all output lines (snapshot, actions, step count, internal log) must be equal. "
            "A case is non-trivial when %s; distinct = distinct wire encodings.")
 
+SIM_RULE = ("cases = fixed regression cases (the witnesses of findings F7-F10, F14) followed by generated simulations drawn from one SplitMix64 state (VERIF_SEED): "
+            "traces of 1-40 packets (both directions, bursts with equal timestamps, gaps 0 ns .. 1 s), network delay 0 .. 50 ms, queue built by parse_trace or by direct pushes, "
+            "optional pps limit, 0-4 machines per side (random validated machines; in half of the cases role machines -- blockers, padders, timers, cancellers with constant "
+            "timings from small sets and all bypass/replace combinations -- so that timers of several machines collide and overlap), all framework fractions, "
+            "stop conditions and output filters. Each case runs the real sim_advanced with the verif recorder armed (every RNG-derived draw of both frameworks, in call order) "
+            "and the extracted Coq model of the simulator with that tape: the returned traces (time, side, event, machine, padding/bypass/replace flags) and the trace-derived "
+            "pps limit must be equal line by line. %s Non-trivial = the trace contains padding, blocking or timer events; distinct = distinct wire encodings.")
+
 PROPS = {
+    "C14": {
+        "sub": "sim",
+        "n": {"quick": 1500, "thorough": 200000},
+        "coq_sample": {"quick": 6, "thorough": 40},
+        "rule": SIM_RULE % "The monitor requires, with no machines: the multiset of client TunnelSent times equals the trace's send times, client TunnelRecv times equal its receive times, the server side is the mirror image shifted by the delay, no other kind of event, sim() agrees with sim_advanced(), and truncated runs are sub-multisets.",
+        "trusted_extra": ['modelled rather than verified (simulator): lib.rs (sim_advanced, pick_next, do_scheduled_action, do_internal_timer, trigger_update, parse_trace), queue.rs, queue_event.rs, queue_peek.rs, network.rs, delay.rs WITHOUT integration delays; std BinaryHeap is modelled exactly (sift_up / sift_down_to_bottom); Instants are unbounded integers (ns), so overflow panics of Instant arithmetic are outside the model', 'the monitors of the simulator properties recover the actions by replaying the returned trace through fresh frameworks seeded as SimState::new does (Xoshiro256StarStar::seed_from_u64(seed), seed+1 for the server)'],
+        "assumptions": ["no integration delays (the properties exclude them)", "times within the range of std::time::Instant"],
+    },
+    "C15": {
+        "sub": "sim",
+        "n": {"quick": 1500, "thorough": 200000},
+        "coq_sample": {"quick": 6, "thorough": 40},
+        "rule": SIM_RULE % 'The monitor requires: trace ordered by time; every TunnelRecv matched (greedily, earliest unmatched) to an earlier TunnelSent of the other side and same kind at least one delay before; no side sends or receives more normal packets than its share, exactly its share when the run ended with all normal packets processed.',
+        "trusted_extra": ['modelled rather than verified (simulator): lib.rs (sim_advanced, pick_next, do_scheduled_action, do_internal_timer, trigger_update, parse_trace), queue.rs, queue_event.rs, queue_peek.rs, network.rs, delay.rs WITHOUT integration delays; std BinaryHeap is modelled exactly (sift_up / sift_down_to_bottom); Instants are unbounded integers (ns), so overflow panics of Instant arithmetic are outside the model', 'the monitors of the simulator properties recover the actions by replaying the returned trace through fresh frameworks seeded as SimState::new does (Xoshiro256StarStar::seed_from_u64(seed), seed+1 for the server)'],
+        "assumptions": ["no integration delays (the properties exclude them)", "times within the range of std::time::Instant"],
+    },
+    "C16": {
+        "sub": "sim",
+        "n": {"quick": 1500, "thorough": 200000},
+        "coq_sample": {"quick": 6, "thorough": 40},
+        "rule": SIM_RULE % 'The monitor replays the trace through fresh frameworks to recover the BlockOutgoing/SendPadding actions and requires: BlockingEnd exactly once at the expiry computed by the start / replace / longest-of rule, no TunnelSent of a blocked side before the expiry unless the blocking is bypassable (every extending action allowed bypass) and the packet carries the bypass flag. Zero-duration blocks are the known finding F8.',
+        "trusted_extra": ['modelled rather than verified (simulator): lib.rs (sim_advanced, pick_next, do_scheduled_action, do_internal_timer, trigger_update, parse_trace), queue.rs, queue_event.rs, queue_peek.rs, network.rs, delay.rs WITHOUT integration delays; std BinaryHeap is modelled exactly (sift_up / sift_down_to_bottom); Instants are unbounded integers (ns), so overflow panics of Instant arithmetic are outside the model', 'the monitors of the simulator properties recover the actions by replaying the returned trace through fresh frameworks seeded as SimState::new does (Xoshiro256StarStar::seed_from_u64(seed), seed+1 for the server)'],
+        "assumptions": ["no integration delays (the properties exclude them)", "times within the range of std::time::Instant"],
+    },
+    "C17": {
+        "sub": "sim",
+        "n": {"quick": 1500, "thorough": 200000},
+        "coq_sample": {"quick": 6, "thorough": 40},
+        "rule": SIM_RULE % "The monitor replays the trace through fresh frameworks and requires: every PaddingSent/BlockingBegin is the completion of the machine's pending action, exactly at issue time + timeout, with the action's flags, once; superseded or cancelled actions never fire; no pending action is overdue when simulated time advances. Ties at one instant are resolved by backtracking over both orders.",
+        "trusted_extra": ['modelled rather than verified (simulator): lib.rs (sim_advanced, pick_next, do_scheduled_action, do_internal_timer, trigger_update, parse_trace), queue.rs, queue_event.rs, queue_peek.rs, network.rs, delay.rs WITHOUT integration delays; std BinaryHeap is modelled exactly (sift_up / sift_down_to_bottom); Instants are unbounded integers (ns), so overflow panics of Instant arithmetic are outside the model', 'the monitors of the simulator properties recover the actions by replaying the returned trace through fresh frameworks seeded as SimState::new does (Xoshiro256StarStar::seed_from_u64(seed), seed+1 for the server)'],
+        "assumptions": ["no integration delays (the properties exclude them)", "times within the range of std::time::Instant"],
+    },
+    "C18": {
+        "sub": "sim",
+        "n": {"quick": 1500, "thorough": 200000},
+        "coq_sample": {"quick": 6, "thorough": 40},
+        "rule": SIM_RULE % 'The monitor replays the trace through fresh frameworks and requires: each TimerBegin follows an UpdateTimer of that machine at that instant, each timer-setting UpdateTimer (replace, none running, later expiry) is followed by a TimerBegin at that instant, TimerEnd exactly once at the computed expiry and never for a cancelled or superseded timer.',
+        "trusted_extra": ['modelled rather than verified (simulator): lib.rs (sim_advanced, pick_next, do_scheduled_action, do_internal_timer, trigger_update, parse_trace), queue.rs, queue_event.rs, queue_peek.rs, network.rs, delay.rs WITHOUT integration delays; std BinaryHeap is modelled exactly (sift_up / sift_down_to_bottom); Instants are unbounded integers (ns), so overflow panics of Instant arithmetic are outside the model', 'the monitors of the simulator properties recover the actions by replaying the returned trace through fresh frameworks seeded as SimState::new does (Xoshiro256StarStar::seed_from_u64(seed), seed+1 for the server)'],
+        "assumptions": ["no integration delays (the properties exclude them)", "times within the range of std::time::Instant"],
+    },
+    "C19": {
+        "sub": "sim",
+        "n": {"quick": 1200, "thorough": 150000},
+        "coq_sample": {"quick": 6, "thorough": 40},
+        "rule": SIM_RULE % 'The monitor runs every case twice (identical traces), compares the three filtered runs with the projections of the unfiltered run (prefix of max_trace_length elements when bounded), and requires no panic (pps limits include 2^32), non-decreasing time and the configured bounds.',
+        "trusted_extra": ['modelled rather than verified (simulator): lib.rs (sim_advanced, pick_next, do_scheduled_action, do_internal_timer, trigger_update, parse_trace), queue.rs, queue_event.rs, queue_peek.rs, network.rs, delay.rs WITHOUT integration delays; std BinaryHeap is modelled exactly (sift_up / sift_down_to_bottom); Instants are unbounded integers (ns), so overflow panics of Instant arithmetic are outside the model', 'the monitors of the simulator properties recover the actions by replaying the returned trace through fresh frameworks seeded as SimState::new does (Xoshiro256StarStar::seed_from_u64(seed), seed+1 for the server)'],
+        "assumptions": ["no integration delays (the properties exclude them)", "times within the range of std::time::Instant"],
+    },
     "C20": {
         "sub": "c20",
         "n": {"quick": 2000, "thorough": 150000},
